@@ -13,6 +13,7 @@
 #include <time.h>
 #include <ctype.h>
 #include <sys/wait.h>
+#include <sys/stat.h>
 #include <stdint.h>
 #include "libMultiMarkdown.h"
 #include "transclude.h"
@@ -57,6 +58,10 @@ void __real_srand(unsigned); void __wrap_srand(unsigned s) { sched_point(K_SRAND
 time_t __wrap_time(time_t *t) { sched_point(K_TIME); if (t) *t = 1700000000; return 1700000000; }
 struct tm *__real_localtime(const time_t *); struct tm *__wrap_localtime(const time_t *t) { sched_point(K_LOCALTIME); return __real_localtime(t); }
 
+/* so is the file system: renaming, removing */
+int __real_rename(const char *, const char *); int __wrap_rename(const char *a, const char *b) { sched_point(512); int r = __real_rename(a, b); sched_point(512); return r; }
+int __real_unlink(const char *); int __wrap_unlink(const char *a) { sched_point(512); return __real_unlink(a); }
+int __real_remove(const char *); int __wrap_remove(const char *a) { sched_point(512); return __real_remove(a); }
 /* the working directory is process-wide state too */
 int __real_chdir(const char *); int __wrap_chdir(const char *p) { sched_point(256); int r = __real_chdir(p); sched_point(256); return r; }
 char *__real_getcwd(char *, size_t); char *__wrap_getcwd(char *b, size_t n) { sched_point(256); return __real_getcwd(b, n); }
@@ -77,6 +82,10 @@ static const job JOBS[] = {
 	{ "trans-dir-a", "A {{t.txt}} and {{w.tex}} and {{t.txt}} end\n", XD, FORMAT_HTML, 0 },
 	{ "trans-dir-a2", "A2 {{w.tex}} then {{t.txt}} {{missing.txt}}\n", XD, FORMAT_HTML, 0 },
 	{ "trans-dir-b", "B {{t2.txt}} end\n", XD, FORMAT_HTML, 0 },
+	/* results written by the library itself, two files in one folder */
+	{ "tofile-a", "Title: FA\n\n# A\n\nfile *a* text\n", XD, FORMAT_HTML, 0 },
+	{ "tofile-b", "file b: other `text` here\n\n* x\n", XD, FORMAT_LATEX, 0 },
+	{ "tofile-c", "Title: FC\n\n![i](i.png)\n", XD, FORMAT_EPUB, 0 },
 	{ "tiny-a", "# Head A\n\n[x] *t*\n\n[x]: http://u/\n", XD, FORMAT_HTML, 0 },
 	{ "tiny-b", "Other B\n=======\n\n| a |\n|---|\n| b |\n[Cap]\n\nc[^n]\n\n[^n]: n\n", XD, FORMAT_LATEX, 0 },
 	{ "tiny-c", "## C [lab]\n\nterm\n: def \"q\"\n", XD, FORMAT_FODT, 0 },
@@ -126,7 +135,15 @@ static void run_job(int t, int k) {
 	if (strstr(j->name, "-dir-")) { snprintf(dirbuf, sizeof dirbuf, "%s/fixtures/assets%s", vd ? vd : "/verif", strstr(j->name, "-dir-b") ? "/sub" : ""); dir = dirbuf; }
 	DString *tsrc = NULL;
 	if (!strncmp(j->name, "trans-", 6)) { char sp[700]; snprintf(sp, sizeof sp, "%s/top.txt", dir); tsrc = d_string_new(j->src); mmd_transclude_source(tsrc, dir, sp, FORMAT_HTML, NULL, NULL); src = tsrc->str; extra ^= fnv(tsrc->str, tsrc->currentStringLength) * 7; }
-	DString *d = mmd_string_convert_to_data(src, j->ext, j->fmt, 0, dir);
+	DString *d = NULL;
+	if (!strncmp(j->name, "tofile-", 7)) {
+		char folder[128], path[200]; snprintf(folder, sizeof folder, "/dev/shm/vp-c17f-%d", (int)getpid());      /* one folder per process (made before the threads start): the two jobs of a mix write side by side */ snprintf(path, sizeof path, "%s/%s.out", folder, j->name);
+		mmd_string_convert_to_file(src, j->ext, j->fmt, 0, NULL, path);
+		FILE *f = fopen(path, "rb"); d = d_string_new(""); if (f) { char b[4096]; size_t n; while ((n = fread(b, 1, sizeof b, f)) > 0) d_string_append_c_array(d, b, n); fclose(f); __real_unlink(path); } else d_string_append(d, "<no file written>");
+
+		extra ^= 0x5151;
+	} else
+	d = mmd_string_convert_to_data(src, j->ext, j->fmt, 0, dir);
 	outhash[t][k] = d ? out_hash(j, d) ^ (extra * 0x9E3779B97F4A7C15ULL) : 0;
 	if (pre) d_string_free(pre, true);
 	if (tsrc) d_string_free(tsrc, true);
@@ -150,7 +167,10 @@ static int exec_child(const int *pre, int plen, result *res) {
 	int fd[2]; if (pipe(fd)) return 0; fflush(stdout);
 	pid_t p = fork();
 	if (!p) {
-		close(fd[0]); prefix = pre; prefix_len = plen; alarm(120); run_exec();
+		close(fd[0]); prefix = pre; prefix_len = plen; alarm(120);
+		char folder[128]; snprintf(folder, sizeof folder, "/dev/shm/vp-c17f-%d", (int)getpid()); mkdir(folder, 0700);
+		run_exec();
+		rmdir(folder);
 		result r; memset(&r, 0, sizeof r); r.n = n_points; memcpy(r.out, outhash, sizeof outhash); memcpy(r.anch, anchors_ok, sizeof anchors_ok); for (int i = 0; i < MAXT; i++) r.kinds[i] = used_kinds[i];
 		wr(fd[1], &r, sizeof r); wr(fd[1], chosen, sizeof(int) * n_points); wr(fd[1], enabled_mask, sizeof(int) * n_points); wr(fd[1], running_before, sizeof(int) * n_points);
 		_exit(0);
@@ -168,7 +188,7 @@ static const char *mixname;
 static void report(const result *r, int t, int k, const char *what) {
 	const job *j = &JOBS[tjobs[t][k]]; int pc = 0;
 	for (int i = 0; i < r->n; i++) if (r->ch[i] > 0 && r->run[i] >= 0 && (r->mask[i] >> r->run[i] & 1)) pc++;
-	const char *cause = (r->kinds[t] & 256) ? "working-directory" : (r->kinds[t] & (K_RANNEXT)) ? "knuth-generator" : (r->kinds[t] & (K_RAND | K_SRAND)) ? "libc-rand" : "other-shared-state";
+	const char *cause = (r->kinds[t] & 512) ? "file-system" : (r->kinds[t] & 256) ? "working-directory" : (r->kinds[t] & (K_RANNEXT)) ? "knuth-generator" : (r->kinds[t] & (K_RAND | K_SRAND)) ? "libc-rand" : "other-shared-state";
 	printf("{\"t\":\"viol\",\"sig\":\"sched:%s:%s\",\"detail\":\"thread %d job %s: %s in a schedule with %d preemption(s)\",\"mix\":\"%s\",\"preemptions\":%d,\"points\":%d,\"schedule\":[", what, cause, t, j->name, what, pc, mixname, pc, r->n);
 	{ int first = 1; for (int i = 0; i < r->n; i++) if (r->ch[i]) { printf("%s[%d,%d]", first ? "" : ",", i, r->ch[i]); first = 0; } }
 	printf("]}\n");
@@ -208,7 +228,7 @@ int main(int argc, char **argv) {
 	chosen = malloc(sizeof(int) * MAXP); enabled_mask = malloc(sizeof(int) * MAXP); running_before = malloc(sizeof(int) * MAXP);
 	for (int j = 0; j < NJOBS; j++) {      /* serial, fresh-process reference */
 		int fd[2]; if (pipe(fd)) return 3;
-		if (!fork()) { NT = 1; tjobs[0][0] = j; ntj[0] = 1; run_job(0, 0); if (write(fd[1], &outhash[0][0], 8) != 8) _exit(3); _exit(0); }
+		if (!fork()) { NT = 1; tjobs[0][0] = j; ntj[0] = 1; char folder[128]; snprintf(folder, sizeof folder, "/dev/shm/vp-c17f-%d", (int)getpid()); mkdir(folder, 0700); run_job(0, 0); rmdir(folder); if (write(fd[1], &outhash[0][0], 8) != 8) _exit(3); _exit(0); }
 		if (read(fd[0], &serial[j], 8) != 8) return 3; wait(NULL); close(fd[0]); close(fd[1]);
 	}
 	for (int a = 3; a < argc; a++) {
